@@ -693,6 +693,8 @@ fn main() {
             }
         };
         let err = rd.join().unwrap_or_default();
+        // a child that aborted or was killed cannot remove its scratch directory itself
+        let _ = std::fs::remove_dir_all(format!("/var/tmp/sv_c26_{}", ch.id()));
         if explore { eprint!("{err}"); }
         let ok = status.is_some_and(|s| s.success());
         if ok {
